@@ -263,6 +263,7 @@ type engaNode struct {
 	wall   time.Duration // the node's wall clock; survives crashes, set by the scheduler
 
 	lastActions []action // actions of the last transition (for observers)
+	firings     int      // deadline firings delivered to this node so far (step + fast-recovery timeouts, all incarnations)
 }
 
 func (n *engaNode) String() string {
@@ -1008,6 +1009,7 @@ func (n *engaNode) fireTimeout(fast bool, entropy uint64) bool {
 	if !n.canTimeout(fast) {
 		return false
 	}
+	n.firings++
 	if fast {
 		n.clock.fired(TimeoutFastRecovery)
 		n.sim.stats.fastTimeouts++
